@@ -1,14 +1,424 @@
-"""Kani back end (filled in below)."""
+"""Kani back end: harness modules are injected (added lines only) into a scratch copy of the current /repo tree,
+`cargo kani` runs on the real crate, failures are replayed with the repository's toolchain on Kani's concrete values."""
+import json, os, re, shutil, subprocess, time, difflib
+
+ROOT = os.path.dirname(os.path.dirname(os.path.abspath(__file__)))
+KDIR = os.path.join(ROOT, "contracts", "kani")
+CACHE = os.path.join(ROOT, ".cache")
+
+CRATES = {
+    "quinn-proto": {"dir": "quinn-proto", "lib": "quinn-proto/src/lib.rs", "flags": ["--no-default-features"], "notrace": True},
+    "quinn-udp": {"dir": "quinn-udp", "lib": "quinn-udp/src/lib.rs", "flags": [], "notrace": False},
+}
+
+HDR = re.compile(r"^//\s*@harness\s+(\w+)\s*(.*)$")
+
+
+def parse_kv(s):
+    out = {}
+    for m in re.finditer(r'(\w+)=("([^"]*)"|\S+)', s):
+        out[m.group(1)] = m.group(3) if m.group(3) is not None else m.group(2)
+    return out
+
+
+def harness_files():
+    """contracts/kani/<name>.rs with header lines `// @target <crate> <file>` and per harness `// @harness <name> props=.. tier=.. kind=..`"""
+    out = []
+    for f in sorted(os.listdir(KDIR)):
+        if not f.endswith(".rs"):
+            continue
+        path = os.path.join(KDIR, f)
+        crate = target = None
+        hs = []
+        stubs = False
+        with open(path) as fh:
+            for ln in fh:
+                m = re.match(r"^//\s*@target\s+(\S+)\s+(\S+)", ln)
+                if m:
+                    crate, target = m.group(1), m.group(2)
+                m = HDR.match(ln.strip())
+                if m:
+                    kv = parse_kv(m.group(2))
+                    hs.append({"name": m.group(1), "props": kv.get("props", "").split(","), "tier": kv.get("tier", "quick"),
+                               "kind": kv.get("kind", "proof"), "bound": kv.get("bound", ""), "fn": kv.get("fn", ""),
+                               "timeout": int(kv.get("timeout", "600")), "stubbing": kv.get("stubbing", "no") == "yes",
+                               "file": f, "crate": crate, "target": target, "desc": kv.get("desc", "")})
+        if crate and hs:
+            out.append({"file": f, "path": path, "crate": crate, "target": target, "harnesses": hs})
+    return out
+
+
+def all_harnesses():
+    return [h for hf in harness_files() for h in hf["harnesses"]]
+
+
+def inject(repo, scratch, crate):
+    """copy the working tree and add the harness modules; returns list of injected files. Raises if the diff is not add-only."""
+    cfg = CRATES[crate]
+    subprocess.run(["rsync", "-a", "--delete", "--exclude", "target", "--exclude", ".git", repo.rstrip("/") + "/", scratch + "/"], check=True)
+    added = {}
+
+    def add_lines(rel, transform):
+        p = os.path.join(scratch, rel)
+        with open(p) as f:
+            orig = f.read().split("\n")
+        new = transform(list(orig))
+        # added-lines-only check
+        sm = difflib.SequenceMatcher(a=orig, b=new, autojunk=False)
+        for tag, i1, i2, j1, j2 in sm.get_opcodes():
+            if tag not in ("equal", "insert"):
+                raise RuntimeError("injection into %s is not add-only (%s)" % (rel, tag))
+        with open(p, "w") as f:
+            f.write("\n".join(new))
+        added[rel] = len(new) - len(orig)
+
+    if cfg["notrace"]:
+        srcdir = os.path.join(scratch, cfg["dir"], "src")
+        for dp, dn, fn in os.walk(srcdir):
+            if os.path.basename(dp) == "tests":
+                continue
+            for f in fn:
+                if not f.endswith(".rs"):
+                    continue
+                rel = os.path.relpath(os.path.join(dp, f), scratch)
+                with open(os.path.join(dp, f)) as fh:
+                    if "use tracing::" not in fh.read():
+                        continue
+
+                def tr(lines):
+                    out = []
+                    for ln in lines:
+                        m = re.match(r"^(\s*)use tracing::", ln)
+                        if m:
+                            out.append(m.group(1) + "#[cfg(not(kani))]")
+                        out.append(ln)
+                    return out
+                add_lines(rel, tr)
+
+    def tr_lib(lines):
+        out, done = [], False
+        for ln in lines:
+            if not done and (ln.startswith("use ") or ln.startswith("mod ") or ln.startswith("pub mod ") or ln.startswith("#[cfg") or ln.startswith("pub use ")):
+                if cfg["notrace"]:
+                    out += ["#[cfg(kani)]", "#[macro_use]", '#[path = "%s"]' % os.path.join(KDIR, "support", "notrace.rs"), "mod verif_kani_notrace;"]
+                out += ["#[cfg(any(kani, verif_replay))]", '#[path = "%s"]' % os.path.join(KDIR, "support", "vk.rs"), "#[allow(unused)]", "pub(crate) mod verif_vk;"]
+                done = True
+            out.append(ln)
+        return out
+    add_lines(cfg["lib"], tr_lib)
+
+    for hf in harness_files():
+        if hf["crate"] != crate:
+            continue
+        modname = "verif_kani_" + hf["file"][:-3]
+
+        def tr_mod(lines, hf=hf, modname=modname):
+            return lines + ["#[cfg(any(kani, verif_replay))]", '#[path = "%s"]' % hf["path"], "mod %s;" % modname]
+        add_lines(hf["target"], tr_mod)
+    return added
+
+
+def kani_cmd(crate, harnesses, extra=()):
+    cfg = CRATES[crate]
+    cmd = ["cargo", "kani"] + cfg["flags"] + ["-Z", "stubbing", "-Z", "function-contracts"]
+    for h in harnesses:
+        cmd += ["--harness", h]
+    cmd += list(extra)
+    return cmd
+
+
+def run_kani(scratch, crate, harness, timeout, extra=()):
+    cfg = CRATES[crate]
+    env = dict(os.environ, CARGO_NET_OFFLINE="true", CARGO_TARGET_DIR=os.path.join(CACHE, "kani-target-" + crate))
+    cmd = kani_cmd(crate, [harness], extra)
+    t0 = time.time()
+    try:
+        p = subprocess.run(cmd, cwd=os.path.join(scratch, cfg["dir"]), env=env, capture_output=True, text=True, timeout=timeout)
+        out, rc, to = p.stdout + "\n" + p.stderr, p.returncode, False
+    except subprocess.TimeoutExpired as e:
+        out = ((e.stdout or b"").decode("utf-8", "replace") if isinstance(e.stdout, bytes) else (e.stdout or "")) + "\nTIMEOUT"
+        rc, to = -1, True
+    return {"cmd": " ".join(cmd), "out": out, "rc": rc, "timeout": to, "wall_s": time.time() - t0}
+
+
+def classify(r):
+    out = r["out"]
+    res = {"status": "tool-error", "checks": None, "failed_checks": [], "covers": None, "solver_s": None}
+    if r["timeout"]:
+        res["status"] = "timeout"
+        return res
+    m = re.search(r"\*\* (\d+) of (\d+) failed", out)
+    if m:
+        res["checks"] = int(m.group(2))
+    m = re.search(r"\*\* (\d+) of (\d+) cover properties satisfied", out)
+    if m:
+        res["covers"] = (int(m.group(1)), int(m.group(2)))
+    m = re.search(r"Verification Time: ([0-9.]+)s", out)
+    if m:
+        res["solver_s"] = float(m.group(1))
+    if "VERIFICATION:- SUCCESSFUL" in out:
+        res["status"] = "ok"
+    elif "VERIFICATION:- FAILED" in out:
+        res["status"] = "failed"
+        for m in re.finditer(r"Failed Checks: (.*)\n\s*File: \"([^\"]*)\", line (\d+), in (\S+)", out):
+            res["failed_checks"].append({"msg": m.group(1), "file": m.group(2), "line": int(m.group(3)), "in": m.group(4)})
+        if any("unwinding assertion" in f["msg"] for f in res["failed_checks"]):
+            res["unwinding"] = True
+    return res
+
+
+def parse_multi(out):
+    """split `-j N --output-format terse` output into per-harness blocks (keyed by short harness name)"""
+    cur = {}   # thread -> harness
+    blocks = {}
+    thread = None
+    for ln in out.split("\n"):
+        m = re.match(r"^Thread (\d+): Checking harness (\S+?)\.\.\.", ln)
+        if m:
+            cur[m.group(1)] = m.group(2).split("::")[-1]
+            blocks.setdefault(cur[m.group(1)], [])
+            thread = None
+            continue
+        m = re.match(r"^Thread (\d+):\s*$", ln)
+        if m:
+            thread = m.group(1)
+            continue
+        m = re.match(r"^Checking harness (\S+?)\.\.\.", ln)
+        if m:  # sequential mode
+            cur["seq"] = m.group(1).split("::")[-1]
+            blocks.setdefault(cur["seq"], [])
+            thread = "seq"
+            continue
+        if thread is not None and thread in cur:
+            blocks[cur[thread]].append(ln)
+            if ln.startswith("Verification Time:"):
+                thread = None if thread != "seq" else "seq"
+    return {k: "\n".join(v) for k, v in blocks.items()}
+
+
+def parse_playback(out):
+    """concrete playback tests printed by Kani: returns list of (check description, [bytes...]) for non-cover checks"""
+    res = []
+    for m in re.finditer(r"/// Check for `(\w+)`: (.*?)\n(?:.*?\n)*?\s*let concrete_vals: Vec<Vec<u8>> = vec!\[(.*?)\n\s*\];", out, re.S):
+        kind, desc, body = m.group(1), m.group(2).strip(), m.group(3)
+        vals = []
+        for vm in re.finditer(r"vec!\[([0-9, ]*)\]", body):
+            vals.append([int(x) for x in vm.group(1).replace(" ", "").split(",") if x != ""])
+        res.append((kind, desc, vals))
+    return res
+
+
+def build_replay_binary(scratch, crate):
+    cfg = CRATES[crate]
+    env = dict(os.environ, CARGO_NET_OFFLINE="true", CARGO_TARGET_DIR=os.path.join(CACHE, "target-demo"))
+    cmd = ["cargo", "rustc", "--offline", "-p", crate, "--lib", "--profile", "test", "--message-format=json", "--", "--cfg", "verif_replay", "-A", "warnings"]
+    p = subprocess.run(cmd, cwd=scratch, env=env, capture_output=True, text=True)
+    exe = None
+    for ln in p.stdout.split("\n"):
+        if ln.startswith("{"):
+            try:
+                j = json.loads(ln)
+            except Exception:
+                continue
+            if j.get("reason") == "compiler-artifact" and j.get("executable") and j.get("target", {}).get("name", "").replace("-", "_") == crate.replace("-", "_"):
+                exe = j["executable"]
+    return exe, p.stderr[-3000:]
+
+
+def run_replay(exe, harness, values_path, cwd):
+    env = dict(os.environ, VERIF_REPLAY_VALUES=values_path, RUST_BACKTRACE="0")
+    p = subprocess.run([exe, harness, "--nocapture", "--test-threads", "1"], cwd=cwd, env=env, capture_output=True, text=True, timeout=300)
+    out = p.stdout + p.stderr
+    void = "VERIF-REPLAY: assumption not met" in out
+    ran = re.search(r"running (\d+) test", out)
+    n = int(ran.group(1)) if ran else 0
+    return {"rc": p.returncode, "out": out[-4000:], "void": void, "ran": n}
+
+
+def write_values(path, vals, header):
+    with open(path, "w") as f:
+        f.write("# %s\n" % header)
+        for v in vals:
+            f.write(" ".join(str(b) for b in v) + "\n")
 
 
 def run_property(prop, tier, repo, workdir, ledger, seed):
-    return {"obligations": [], "undecided": [], "bounded": [], "cmds": [], "functions": [], "trusted": [], "vacuity": {}}
+    res = {"obligations": [], "undecided": [], "bounded": [], "cmds": [], "functions": [], "trusted": [], "vacuity": {}}
+    hs = [h for h in all_harnesses() if prop in h["props"] and (tier == "thorough" or h["tier"] == "quick")]
+    skipped = [h for h in all_harnesses() if prop in h["props"] and h not in hs]
+    for h in skipped:
+        if h["kind"] == "bounded":
+            res["bounded"].append({"name": h["name"], "bound": h["bound"], "status": "not run (thorough tier only)"})
+    if not hs:
+        return res
+    covers_ok = covers_all = 0
+    replay_dir = os.environ.get("VERIF_EVIDENCE_DIR") and os.path.join(os.environ["VERIF_EVIDENCE_DIR"], "replay") or os.path.join(ROOT, "replay")
+    for crate in sorted(set(h["crate"] for h in hs)):
+        chs = [h for h in hs if h["crate"] == crate]
+        scratch = os.path.join(workdir, "k-" + crate)
+        os.makedirs(scratch, exist_ok=True)
+        try:
+            inject(repo, scratch, crate)
+        except Exception as e:  # lost target file, non add-only diff ...
+            res["undecided"].append("kani %s: injection failed: %s" % (crate, e))
+            continue
+        cfg = CRATES[crate]
+        tmo = max(h["timeout"] for h in chs)
+        extra = ["-j", str(min(12, len(chs))), "--output-format", "terse", "-Z", "unstable-options", "--harness-timeout", "%ds" % tmo]
+        cmd = kani_cmd(crate, [h["name"] for h in chs], extra)
+        env = dict(os.environ, CARGO_NET_OFFLINE="true", CARGO_TARGET_DIR=os.path.join(CACHE, "kani-target-" + crate))
+        res["cmds"].append("(cd <scratch>/%s && %s)" % (cfg["dir"], " ".join(cmd)))
+        t0 = time.time()
+        try:
+            p = subprocess.run(cmd, cwd=os.path.join(scratch, cfg["dir"]), env=env, capture_output=True, text=True, timeout=tmo * 2 + 600)
+            out = p.stdout + "\n" + p.stderr
+        except subprocess.TimeoutExpired:
+            res["undecided"].append("kani %s: overall timeout" % crate)
+            continue
+        blocks = parse_multi(p.stdout)
+        if not blocks:
+            res["undecided"].append("kani %s: no harness output (build failed?): %s" % (crate, out[-1500:]))
+            continue
+        replay_exe = None
+        for h in chs:
+            blk = blocks.get(h["name"])
+            name = "kani:%s:%s" % (crate, h["name"])
+            o = {"name": name, "backend": "kani-cbmc", "harness": h["name"], "fn": h["fn"], "desc": h["desc"], "kind": h["kind"]}
+            if blk is None:
+                c = {"status": "tool-error", "checks": None, "covers": None, "solver_s": None, "failed_checks": []}
+                if "CBMC timed out" in out or "timed out" in out:
+                    c["status"] = "timeout"
+            else:
+                c = classify({"out": blk, "timeout": "timed out" in blk and "VERIFICATION" not in blk, "rc": 0})
+            o["checks"] = c["checks"]
+            o["ms"] = round((c["solver_s"] or 0) * 1000, 1)
+            if c["covers"]:
+                covers_ok += c["covers"][0]
+                covers_all += c["covers"][1]
+            if c["status"] == "ok":
+                if c["covers"] and c["covers"][0] != c["covers"][1]:
+                    o["status"] = "undecided"
+                    res["undecided"].append("%s: vacuity: only %d of %d cover properties satisfied" % (name, c["covers"][0], c["covers"][1]))
+                else:
+                    o["status"] = "discharged"
+            elif c["status"] == "failed" and not c.get("unwinding"):
+                o["errors"] = [{"msg": f["msg"], "text": "%s (%s:%d in %s)" % (f["msg"], f["file"], f["line"], f["in"]), "where": [{"gen_line": f["line"], "origin": ("repo", f["file"], f["line"])}], "level": "error"} for f in c["failed_checks"]]
+                if h["name"] not in ledger:
+                    o["status"] = "undecided"
+                    res["undecided"].append("%s: fails but is not in the expected-green ledger: %s" % (name, "; ".join(f["msg"] for f in c["failed_checks"][:3])))
+                else:
+                    # counterexample + replay on the real code with the repository's toolchain
+                    r1 = run_kani(scratch, crate, h["name"], h["timeout"], extra=["-Z", "concrete-playback", "--concrete-playback=print"])
+                    pb = [x for x in parse_playback(r1["out"]) if x[0] != "cover"]
+                    o["status"] = "failed"
+                    o["witness"] = False
+                    os.makedirs(replay_dir, exist_ok=True)
+                    rp = os.path.join(replay_dir, "%s-kani-%s.json" % (prop, h["name"]))
+                    doc = {"property": prop, "obligation": name, "backend": "kani-cbmc", "function": h["fn"], "contract": h["desc"],
+                           "failed_checks": c["failed_checks"], "harness_file": os.path.join(KDIR, h["file"]), "witnesses": []}
+                    if pb:
+                        if replay_exe is None:
+                            replay_exe, berr = build_replay_binary(scratch, crate)
+                        confirmed = False
+                        for kind, desc, vals in pb[:4]:
+                            vp = os.path.join(replay_dir, "%s-kani-%s.values" % (prop, h["name"]))
+                            write_values(vp, vals, "%s: %s" % (h["name"], desc))
+                            w = {"check": desc, "values_le_bytes": vals, "values_file": vp}
+                            if replay_exe:
+                                rr = run_replay(replay_exe, h["name"], vp, os.path.join(scratch, cfg["dir"]))
+                                w["replay_rc"] = rr["rc"]
+                                w["replay_output_tail"] = rr["out"][-1500:]
+                                w["replay_void"] = rr["void"]
+                                if rr["rc"] != 0 and not rr["void"] and rr["ran"] > 0:
+                                    confirmed = True
+                                    doc["witnesses"].append(w)
+                                    break
+                            doc["witnesses"].append(w)
+                        o["witness"] = confirmed
+                        if not confirmed and replay_exe:
+                            # the verifier's model disagrees with the real execution: artefact, not a violation
+                            o["status"] = "undecided"
+                            res["undecided"].append("%s: Kani counterexample does not reproduce on the real code (model artefact)" % name)
+                    doc["how_to_replay"] = "./check %s --replay %s" % (prop, rp)
+                    doc["verdict"] = "confirmed on real code" if o.get("witness") else "no-failing-input-found"
+                    with open(rp, "w") as f:
+                        json.dump(doc, f, indent=1)
+                    o["replay"] = rp
+            else:
+                o["status"] = "undecided"
+                why = "unwinding bound too small" if c.get("unwinding") else c["status"]
+                if h["kind"] != "bounded":
+                    res["undecided"].append("%s: %s" % (name, why))
+            if h["kind"] == "bounded":
+                res["bounded"].append({"name": h["name"], "bound": h["bound"], "status": {"discharged": "passed within the bound", "failed": "FAILED"}.get(o["status"], "not finished (%s)" % c["status"]),
+                                       "checks": c["checks"], "solver_s": c["solver_s"]})
+                if o["status"] == "failed":
+                    res["obligations"].append(o)
+            else:
+                res["obligations"].append(o)
+                if h["fn"]:
+                    res["functions"].append("%s (kani harness %s)" % (h["fn"], h["name"]))
+    res["vacuity"] = {"kani_covers_satisfied": covers_ok, "kani_covers_total": covers_all}
+    res["trusted"] = ["kani: CBMC bit-precise model of the compiled crate; harness assumptions are listed per harness in contracts/kani/*.rs",
+                      "kani: tracing macros replaced by no-ops under cfg(kani) (added lines only)"]
+    return res
 
 
 def update_ledger(repo, workdir):
-    return {}
+    """run every quick+thorough proof harness once; the green ones form the ledger"""
+    led = {}
+    for prop in sorted(set(p for h in all_harnesses() for p in h["props"] if p)):
+        pass
+    # run all harnesses through run_property-like path per crate using a pseudo property
+    hs = all_harnesses()
+    for crate in sorted(set(h["crate"] for h in hs)):
+        chs = [h for h in hs if h["crate"] == crate]
+        scratch = os.path.join(workdir, "k-" + crate)
+        os.makedirs(scratch, exist_ok=True)
+        inject(repo, scratch, crate)
+        cfg = CRATES[crate]
+        tmo = max(h["timeout"] for h in chs)
+        extra = ["-j", "12", "--output-format", "terse", "-Z", "unstable-options", "--harness-timeout", "%ds" % tmo]
+        cmd = kani_cmd(crate, [h["name"] for h in chs], extra)
+        env = dict(os.environ, CARGO_NET_OFFLINE="true", CARGO_TARGET_DIR=os.path.join(CACHE, "kani-target-" + crate))
+        p = subprocess.run(cmd, cwd=os.path.join(scratch, cfg["dir"]), env=env, capture_output=True, text=True)
+        blocks = parse_multi(p.stdout)
+        if not blocks:
+            print("ledger: kani %s produced no output: %s" % (crate, (p.stdout + p.stderr)[-3000:]))
+        for h in chs:
+            blk = blocks.get(h["name"])
+            c = classify({"out": blk or "", "timeout": False, "rc": 0})
+            print("ledger: kani %-40s %-10s checks=%s covers=%s %.1fs" % (h["name"], c["status"], c["checks"], c["covers"], c["solver_s"] or 0))
+            if c["status"] == "ok" and (not c["covers"] or c["covers"][0] == c["covers"][1]):
+                led[h["name"]] = {"props": h["props"], "kind": h["kind"]}
+            elif c["status"] == "failed":
+                print("   " + "; ".join("%s @%s:%d" % (f["msg"], f["file"], f["line"]) for f in c["failed_checks"][:4]))
+    return led
 
 
 def replay(prop, path, repo):
-    print("replay: %s" % path)
-    return 0
+    """re-run the recorded witness of a Kani violation against the current tree"""
+    import tempfile
+    doc = json.load(open(path))
+    if doc.get("backend") != "kani-cbmc" or not doc.get("witnesses"):
+        print("replay file carries no concrete input (%s); re-run ./check %s to re-verify" % (doc.get("verdict", doc.get("kind")), prop))
+        print(json.dumps(doc.get("verifier_output", doc.get("failed_checks")), indent=1)[:3000])
+        return 1
+    harness = doc["obligation"].split(":")[-1]
+    crate = doc["obligation"].split(":")[1]
+    wd = tempfile.mkdtemp(prefix="qverif.replay.", dir="/var/tmp")
+    try:
+        inject(repo, wd, crate)
+        exe, err = build_replay_binary(wd, crate)
+        if not exe:
+            print("cannot build replay binary: %s" % err)
+            return 2
+        w = doc["witnesses"][-1]
+        vp = os.path.join(wd, "values.txt")
+        write_values(vp, w["values_le_bytes"], w["check"])
+        rr = run_replay(exe, harness, vp, os.path.join(wd, CRATES[crate]["dir"]))
+        print(rr["out"][-3000:])
+        print("replay %s: %s" % (harness, "FAILS on this tree (violation reproduced)" if rr["rc"] != 0 and not rr["void"] else "passes on this tree"))
+        return 1 if rr["rc"] != 0 and not rr["void"] else 0
+    finally:
+        shutil.rmtree(wd, ignore_errors=True)
